@@ -35,8 +35,11 @@ def main():
     if f.startswith('--tier='):
       tier = f.split('=')[1]
   in_repo = '--in-repo' in flags
+  recheck = '--recheck' in flags      # confirmation (demo, baseline) was done before: only run the check again
   meta = json.load(open(os.path.join(cand, 'meta.json')))
   prop = meta.get('property')
+  # a change written against one property may be caught by another property's check (recorded in meta.json)
+  check_prop = meta.get('checked_with') or prop
   out = os.path.join(VERIF, 'seeded', sid)
   os.makedirs(out, exist_ok=True)
   for f in ('patch.diff', 'demo.py'):
@@ -53,30 +56,39 @@ def main():
     assert r.returncode == 0, r.stderr
   res = {}
   try:
-    r = sh('/venv/bin/python %s %s' % (demo, wt), timeout=600)
-    res['demo_without_patch'] = 'PASS' if r.returncode == 0 else 'FAIL(rc=%d)' % r.returncode
+    old_ran = meta.get('what_i_ran') or {}
+    if recheck:
+      res['demo_without_patch'] = old_ran.get('demo_without_patch')
+    else:
+      r = sh('/venv/bin/python %s %s' % (demo, wt), timeout=600)
+      res['demo_without_patch'] = 'PASS' if r.returncode == 0 else 'FAIL(rc=%d)' % r.returncode
     r = sh('git -C %s apply %s' % (wt, patch))
     res['patch_applies'] = r.returncode == 0
     if not res['patch_applies']:
       print('patch does not apply:', r.stderr)
     else:
-      r = sh('/venv/bin/python %s %s' % (demo, wt), timeout=600)
-      res['demo_with_patch'] = 'FAIL' if r.returncode == 1 else 'rc=%d' % r.returncode
-      r = sh('%s/tools/baseline.sh %s' % (VERIF, wt), timeout=1800)
-      res['baseline'] = r.stdout.strip().splitlines()[0] if r.stdout.strip() else 'no output'
-      res['baseline_ok'] = r.returncode == 0
+      if recheck:
+        res['demo_with_patch'] = old_ran.get('demo_with_patch')
+        res['baseline'] = old_ran.get('baseline_with_patch')
+        res['baseline_ok'] = bool(meta.get('confirmed'))
+      else:
+        r = sh('/venv/bin/python %s %s' % (demo, wt), timeout=600)
+        res['demo_with_patch'] = 'FAIL' if r.returncode == 1 else 'rc=%d' % r.returncode
+        r = sh('%s/tools/baseline.sh %s' % (VERIF, wt), timeout=1800)
+        res['baseline'] = r.stdout.strip().splitlines()[0] if r.stdout.strip() else 'no output'
+        res['baseline_ok'] = r.returncode == 0
       det = []
       # keep the committed evidence file: these runs are against a patched tree
-      ev = os.path.join(VERIF, 'evidence', '%s.json' % prop)
+      ev = os.path.join(VERIF, 'evidence', '%s.json' % check_prop)
       ev_old = open(ev).read() if os.path.exists(ev) else None
       try:
         for s in seeds:
           t0 = time.time()
-          r = sh('%s/check.py %s --tier %s --seed %d --repo %s' % (VERIF, prop, tier, s, wt), timeout=7200)
+          r = sh('%s/check.py %s --tier %s --seed %d --repo %s' % (VERIF, check_prop, tier, s, wt), timeout=7200)
           viol = [l for l in r.stdout.splitlines() if l.startswith('VIOLATION')]
           rules = [l.strip() for l in r.stdout.splitlines() if l.startswith('  ') and ': ' in l and
                    l.strip().split(':')[0] in ('R1', 'R2', 'R3', 'R4', 'R5', 'R6', 'R7', 'R8', 'S1', 'S2', 'S3',
-                                               'S4', 'S5', 'T1', 'T2', 'T3', 'T4', 'T5', 'T6')]
+                                               'S4', 'S5', 'T1', 'T2', 'T3', 'T4', 'T5', 'T6', 'T7')]
           d = {'seed': s, 'tier': tier, 'exit': r.returncode, 'violations': len(viol),
                'first': rules[:2], 'wall_s': round(time.time() - t0, 1)}
           if viol:
@@ -123,6 +135,11 @@ def main():
   }
   if notes:
     meta_out['notes'] = notes
+  if check_prop != prop:
+    meta_out['checked_with'] = check_prop
+  for k in ('rebased', 'first_pass_detected'):
+    if k in meta:
+      meta_out[k] = meta[k]
   json.dump(meta_out, open(os.path.join(out, 'meta.json'), 'w'), indent=1)
   print(json.dumps({'id': sid, 'confirmed': confirmed, 'detected': res.get('detected'),
                     'runs': res.get('check_runs')}, indent=1)[:1500])
